@@ -24,6 +24,7 @@ META = {
     "design_ref": "DESIGN.md section 4, C20/C21/C22",
 }
 
+TAGS = {}      # op text -> which rule the mutation broke (for reports)
 ACCEPT = "1111111"
 REJECT = "0000000"
 
@@ -71,6 +72,7 @@ def gen_history(r, tier):
     for _ in range(3 if tier == "quick" else 6):
         K2, tag = G.mutate(K, r)
         h.append(G.t_op(K2, REJECT))
+        TAGS[h[-1]] = tag
     if r.random() < 0.5:
         K3 = copy_use(K, r)
         if K3 is not None:
